@@ -133,7 +133,11 @@ CHECKS = {
               "nas_sscanf must return the real the string denotes, and the error against the binary64 argument is checked in exact "
               "rational arithmetic against half a unit (x1.01) of digit MaxSig. (3) card layout laws + enumerated kind-mixes (all up to "
               "5 fields, boundary lengths 7..60 x 5 patterns): wtcard8/16/16d -> rdcards field for field, line count and continuation "
-              "marks, neighbouring cards neither swallowed nor skipped, fixed form = comma form."),
+              "marks, neighbouring cards neither swallowed nor skipped, fixed form = comma form. Growth (specs/BulkInclude.tla): the "
+              "INCLUDE-following reader as an explicit stack machine over 3 files (INCLUDE by file name -> relative to the current file, "
+              "with directories -> relative to the root, by symbol; quoted path split over two lines; cards with continuation lines and "
+              "foreign cards around the INCLUDE): TLC checks DeliversExpansion, PrefixSoFar, DepthBound, Terminates on every tree (1330 "
+              "quick / 12103 thorough); every tree is written to disk and read back by rdcards."),
         ref="4/C12",
         note=("Trusted: TLC, fractions.Fraction arithmetic. 'What the width allows' = normalised fixed / exponent forms (moving the "
               "decimal point to save an exponent digit is not demanded). A genuine defect was repaired (values rounding up into a new "
